@@ -64,7 +64,7 @@ class G:
     def s_string(self, where):
         """a sensitive string of a random lexical class"""
         core = self.p.core(True)
-        k = self.r.choice(['ascii', 'ascii', 'unicode', 'astral', 'email', 'email_mixed', 'dollar_mid', 'digits', 'escapes', 'empty', 'lookalike', 'long', 'padded_email', 'percent', 'at_nonmail', 'pseudoshape'])
+        k = self.r.choice(['ascii', 'ascii', 'unicode', 'astral', 'email', 'email_mixed', 'dollar_mid', 'digits', 'escapes', 'empty', 'lookalike', 'long', 'padded_email', 'percent', 'at_nonmail', 'pseudoshape', 'edge_special'])
         self.hit('lit_' + k)
         if k == 'ascii': s = 'secret ' + core
         elif k == 'unicode': s = 'résumé ' + core + ' 中文'
@@ -72,6 +72,8 @@ class G:
         elif k == 'email': s = core.lower() + '@example.com'; core = core.lower()
         elif k == 'email_mixed': s = core + '.Name@Example.COM'
         elif k == 'percent': s = '100% ' + core + ' %s %d %%'
+        elif k == 'edge_special':      # a character that scanners look BEHIND or AHEAD of, at the very end / start of the text
+            s = self.r.choice(['%s@', '%s.', '%s$', '%s\\', '%s%%', '%s:', '%s-', '%s+', '%s/', '%s"', '%s{', '%s[', '%s ', '@%s@', '.%s.', 'x@%s@', '%s@.', '%s..', '-%s', '+%s', ':%s', '%s\u00e9', '%s\ud83d\ude00'.encode().decode('unicode_escape').encode('utf-16', 'surrogatepass').decode('utf-16') if False else '%s\U0001F600']) % core
         elif k == 'at_nonmail': s = self.r.choice(['svc_%s@db-host:27017', 'deploy@build01.example.org/%s', 'meet %s@noon today', '%s@my_host', 'a@%s@c', '@%s', '%s@example.org.']) % core
         elif k == 'padded_email':
             core = core.lower()
@@ -554,6 +556,11 @@ def command_line(rng, vocab=None, collide=False, depth=4, lit_rng=None, vary_num
     return dumps(entry).encode('utf-8'), info
 
 # ---------- arbitrary trees ----------
+# names that mean something at ONE level of a log line (entry / attr / command document): as keys at any other level they are ordinary names
+LEVEL_WORDS = ['ns', 'aggregate', 'insert', 'find', 'update', 'collection', 'delete', '$db', 'count', 'findAndModify', 'findOneAndDelete', 'replace', 'findOneAndReplace', 'findOneAndUpdate',
+               'getIndexes', 'countDocuments', 'query', 'filter', 'sort', 'q', 'u', 'updates', 'deletes', 'documents', 'pipeline', 'command', 'cmd', 'originatingCommand', 'remote',
+               'planSummary', 'attr', 'c', 'msg', 't', 's', 'id', 'ctx', 'getMore', 'distinct', 'key']
+
 def anyjson_tree(rng, vocab, depth=0, maxdepth=5):
     ks = ['str', 'str', 'num', 'bool', 'null', 'obj', 'obj', 'arr', 'emptyobj', 'emptyarr', 'dollar']
     if depth >= maxdepth: ks = ['str', 'num', 'bool', 'null', 'emptyobj', 'emptyarr', 'dollar']
@@ -569,7 +576,7 @@ def anyjson_tree(rng, vocab, depth=0, maxdepth=5):
     if k == 'arr': return [anyjson_tree(rng, vocab, depth + 1, maxdepth) for _ in range(rng.randint(1, 3))]
     d = {}
     for _ in range(rng.randint(1, 4)):
-        key = rng.choice(vocab['all']) if rng.random() < 0.6 else rng.choice(USER_FIELDS + ['', 'a.b', '$x', 'k"q', 'na\x01me', 'k\x7f', 'discount%', 'a%b', '%d', 'esc\x1bkey', 'bell\x07', 'tab\tkey', 'ключ', 'k\u2028e', 'back\\slash', 'R&D', '<id>', 'a>b', 'amp&lt;', 'k\u2029p', 'a,b'])
+        key = rng.choice(LEVEL_WORDS) if rng.random() < 0.12 else rng.choice(vocab['all']) if rng.random() < 0.6 else rng.choice(USER_FIELDS + ['', 'a.b', '$x', 'k"q', 'na\x01me', 'k\x7f', 'discount%', 'a%b', '%d', 'esc\x1bkey', 'bell\x07', 'tab\tkey', 'ключ', 'k\u2028e', 'back\\slash', 'R&D', '<id>', 'a>b', 'amp&lt;', 'k\u2029p', 'a,b'])
         d[key] = anyjson_tree(rng, vocab, depth + 1, maxdepth)
     return d
 
@@ -579,12 +586,13 @@ def anyjson_line(rng, vocab):
     def cmd():
         return {k: anyjson_tree(rng, vocab, 1) for k in rng.sample(cmdkeys, rng.randint(0, 6))}
     attr = {}
-    for k in rng.sample(['command', 'cmd', 'originatingCommand', 'ns', 'remote', 'planSummary', 'x', 'durationMillis'], rng.randint(0, 6)):
+    for k in rng.sample(['command', 'cmd', 'originatingCommand', 'ns', 'remote', 'planSummary', 'x', 'durationMillis', 'collection', 'count', 'find', 'update', '$db', 'insert', 'aggregate', 'delete', 'filter', 'query'], rng.randint(0, 7)):
         if k in ('command', 'cmd', 'originatingCommand'):
             attr[k] = cmd() if rng.random() < 0.85 else anyjson_tree(rng, vocab, 3)
         elif k == 'ns': attr[k] = rng.choice(['mydb.users', 'x', '', RawNum('5'), None, 'a.b.c'])
         elif k == 'remote': attr[k] = rng.choice(['1.2.3.4:5', RawNum('7'), None, {}])
         elif k == 'planSummary': attr[k] = rng.choice(['COLLSCAN', 'IXSCAN { a: 1 }', 'IXSCAN { a: 1, b.c: -1 } IXSCAN { d: 1 }', RawNum('3'), 'IXSCAN {}', 'IXSCAN{x:1}'])
+        elif k in ('collection', 'count', 'find', 'update', '$db', 'insert', 'aggregate', 'delete') and rng.random() < 0.6: attr[k] = rng.choice(['orders', '12 of 40 chunks', 'mydb', 'users.archive', ''])      # an attribute of that NAME, not a command member
         else: attr[k] = anyjson_tree(rng, vocab, 3)
     entry = {'t': {'$date': '2020-01-01T00:00:00.000+00:00'}, 's': 'I', 'c': comp, 'id': RawNum('12345678901234567890'), 'ctx': 'c',
              'msg': rng.choice(['Slow query', 'other', 'Connection accepted']),
